@@ -146,6 +146,17 @@ pub open spec fn s_has_fv(t: STerm, c: nat, x: nat) -> bool
     }
 }
 
+pub open spec fn def_has_fv<'a>(defs: Seq<(&'a str, Rc<Term<'a>>, Rc<Term<'a>>)>, j: int, c: nat, x: nat) -> bool {
+    s_has_fv(view(*defs[j].1), c, x) || s_has_fv(view(*defs[j].2), c, x)
+}
+
+// Some definition among the first n of a group has x free (relative to cutoff c).
+pub open spec fn defs_fv<'a>(defs: Seq<(&'a str, Rc<Term<'a>>, Rc<Term<'a>>)>, n: nat, c: nat, x: nat) -> bool
+    decreases n
+{
+    if n == 0 { false } else { defs_fv(defs, (n - 1) as nat, c, x) || def_has_fv(defs, n - 1, c, x) }
+}
+
 // ---- per-arity unfolding lemmas (broadcast inside the exec functions) -----------------------------
 
 pub broadcast proof fn lemma_ok0(k: Kind, c: nat, b: nat)
@@ -405,4 +416,51 @@ pub proof fn lemma_ok_let<'a>(t: Term<'a>, defs: Vec<(&'a str, Rc<Term<'a>>, Rc<
         assert(s_ok(kids[j], c + binds(Kind::Let, kids.len(), j), b));
         assert(s_ok(kids[j + m], c + binds(Kind::Let, kids.len(), j + m), b));
     }
+}
+
+pub proof fn lemma_defs_fv_iff<'a>(defs: Seq<(&'a str, Rc<Term<'a>>, Rc<Term<'a>>)>, n: nat, c: nat, x: nat)
+    ensures defs_fv(defs, n, c, x) <==> exists|j: int| 0 <= j < n && #[trigger] def_has_fv(defs, j, c, x)
+    decreases n
+{
+    if n > 0 {
+        lemma_defs_fv_iff(defs, (n - 1) as nat, c, x);
+        if defs_fv(defs, (n - 1) as nat, c, x) {
+            let j = choose|j: int| 0 <= j < n - 1 && #[trigger] def_has_fv(defs, j, c, x);
+            assert(0 <= j < n && def_has_fv(defs, j, c, x));
+        }
+        if def_has_fv(defs, n - 1, c, x) {
+            assert(0 <= n - 1 < n && def_has_fv(defs, n - 1, c, x));
+        }
+        if exists|j: int| 0 <= j < n && #[trigger] def_has_fv(defs, j, c, x) {
+            let j = choose|j: int| 0 <= j < n && #[trigger] def_has_fv(defs, j, c, x);
+            if j < n - 1 { assert(0 <= j < n - 1 && def_has_fv(defs, j, c, x)); }
+        }
+    }
+}
+
+// The s_has_fv unfolding for a definition group.
+pub proof fn lemma_fv_let<'a>(t: Term<'a>, defs: Vec<(&'a str, Rc<Term<'a>>, Rc<Term<'a>>)>, body: Rc<Term<'a>>, c: nat, x: nat)
+    requires
+        t.variant == Let(defs, body),
+    ensures
+        s_has_fv(view(t), c, x) <==> (defs_fv(defs@, defs@.len(), c + defs@.len(), x) || s_has_fv(view(*body), c + defs@.len(), x)),
+{
+    lemma_let_kids(t, defs, body);
+    let kids = kids_of(t);
+    let m = defs@.len() as int;
+    let cc = c + defs@.len();
+    assert(view(t)->Node_1 == kids);
+    lemma_defs_fv_iff(defs@, defs@.len(), cc, x);
+    if s_has_fv(view(t), c, x) {
+        let i = choose|i: int| #![trigger kids[i]] 0 <= i < kids.len() && s_has_fv(kids[i], c + binds(Kind::Let, kids.len(), i), x);
+        if i < m { assert(kids[i] == view(*defs@[i].1)); assert(def_has_fv(defs@, i, cc, x)); }
+        else if i < 2 * m { assert(kids[(i - m) + m] == view(*defs@[i - m].2)); assert(def_has_fv(defs@, i - m, cc, x)); }
+        else { assert(i == 2 * m); }
+    }
+    if defs_fv(defs@, defs@.len(), cc, x) {
+        let j = choose|j: int| 0 <= j < m && #[trigger] def_has_fv(defs@, j, cc, x);
+        assert(s_has_fv(view(*defs@[j].1), cc, x) ==> s_has_fv(kids[j], c + binds(Kind::Let, kids.len(), j), x));
+        assert(s_has_fv(view(*defs@[j].2), cc, x) ==> s_has_fv(kids[j + m], c + binds(Kind::Let, kids.len(), j + m), x));
+    }
+    assert(s_has_fv(view(*body), cc, x) ==> s_has_fv(kids[2 * m], c + binds(Kind::Let, kids.len(), 2 * m), x));
 }
